@@ -245,6 +245,9 @@ def build_config(config, filename=None):
         # Drop unsupported arguments from config rather than getting a
         # "unsupported keyword" exception
         config = {k: config[k] for k in config if k in supported_args}
+        if config.get('unit', '') is None:
+            # No unit provided: Use the default unit of the serializer
+            del config['unit']
     return config
 
 
